@@ -28,7 +28,6 @@ import (
 	mockstatesinformer "github.com/koordinator-sh/koordinator/pkg/koordlet/statesinformer/mockstatesinformer"
 	koordletutil "github.com/koordinator-sh/koordinator/pkg/koordlet/util"
 	"github.com/koordinator-sh/koordinator/pkg/koordlet/util/system"
-	"github.com/koordinator-sh/koordinator/pkg/util/cpuset"
 )
 
 // C10 "roundx" harness: DIRECTED histories of the real suppressBECPU() on one agent object (one executor with its cache)
@@ -270,7 +269,7 @@ func c10CaseRoundX(t *testing.T, h *vHarness, r *vRand, cg *c10Cgroup, beDir str
 			return nil, false
 		}
 		raw := cg.read(t, f.dir, system.CPUSet)
-		set, err := cpuset.Parse(strings.Trim(raw, "\n"))
+		set, err := c10ParseFile(raw)
 		if err != nil {
 			h.Obs("f%d unparsable", k)
 			h.Fail("C10:cpuset-unparsable", "cpuset.cpus content %q in %s", raw, f.dir)
@@ -820,7 +819,7 @@ func c10CaseExec(t *testing.T, h *vHarness, cg *c10Cgroup, caseIdx, start, lengt
 			}
 			h.Nontrivial()
 			raw := cg.read(t, dir, system.CPUSet)
-			set, err := cpuset.Parse(strings.TrimSpace(raw))
+			set, err := c10ParseFile(strings.TrimSpace(raw))
 			if err != nil {
 				h.Obs("xf unparsable")
 				h.Fail("C10:cpuset-unparsable", "cpuset.cpus content %q", raw)
